@@ -181,6 +181,8 @@ class Flow:
             return OTHER  # iterating a dict gives its keys
         if r[0] == "bad":
             return r
+        if r[0] == "obj":
+            return ("bad", f"the (field, value) pairs of one {r[1]} spread into a list (its fields are iterated where the object is meant)")
         if r[0] == "mix":
             out = EMPTY
             for x in r[1]:
@@ -433,7 +435,7 @@ def check_metric_calls(ctx, rule, flow: Flow, tm: str) -> int:
     return n
 
 
-def check_objects(ctx, rule, flow: Flow, tm: str, se_level: bool):
+def check_objects(ctx, rule, flow: Flow, tm: str, se_level: bool, both_sides: bool = False):
     """result objects get what their fields name"""
     want = {
         "ClipEvaluation": {"annotations": ("ann", "clip"), "predictions": ("pred", "clip")},
@@ -453,6 +455,19 @@ def check_objects(ctx, rule, flow: Flow, tm: str, se_level: bool):
             elif r[0] in ("ann", "pred", "bad"):
                 ctx.bad(rule, o.file, o.func, f"{o.kind}({field}={rshow(r)})",
                         f"{tm}.{o.func}: {o.kind}.{field} receives {rshow(r)} instead of the {rshow(w)}", o.lineno)
+        if o.kind == "Match" and both_sides:
+            for field in ("source", "target"):
+                if field not in roles or roles[field] == NOCLASS:
+                    ctx.bad(rule, o.file, o.func, f"Match without {field}",
+                            f"{tm}.{o.func}: the Match of an evaluated pair is built without its {field}: the ClipEvaluation that receives it "
+                            f"finds the {'prediction' if field == 'source' else 'annotation'} unmatched and rejects the clip", o.lineno)
+        for field, cls_ in (("clip_evaluations", "ClipEvaluation"), ("matches", "Match")):
+            r = roles.get(field)
+            if r is not None and has(r, "bad") is not None:
+                ctx.bad(rule, o.file, o.func, f"{o.kind}({field}=...)", f"{tm}.{o.func}: {o.kind}.{field} receives {has(r, 'bad')[1]}", o.lineno)
+        if o.kind == "Evaluation" and "clip_evaluations" not in roles:
+            ctx.bad(rule, o.file, o.func, "Evaluation(...) without clip_evaluations",
+                    f"{tm}.{o.func}: the Evaluation is built without its clip evaluations: the per-clip scores, metrics and matches are not reported", o.lineno)
         if o.kind == "ClipEvaluation" and se_level and "matches" in roles:
             r = roles["matches"]
             if r == seq(("obj", "Match")):
